@@ -20,7 +20,7 @@
 
 using namespace pbt;
 
-enum { OADD, OGET, OHAS, OREMOVE, OITER, AADD, AGET, AREMOVE, AITER, AOOR, WRONGTYPE, ROUNDTRIP, NKINDS };
+enum { OADD, OGET, OHAS, OREMOVE, OITER, AADD, AGET, AREMOVE, AITER, AOOR, WRONGTYPE, ROUNDTRIP, DUPSWITCH, NKINDS };
 
 static const char *const POOL[] = {"a",   "A",    "b",      "ab",       "AB",       "Ab",  "key", "KEY", "Key", "",  " ",
                                    "a\"b", "k\n", "\xc3\xa9", "\xc3\x89", "z",        "Z",   "a.b", "a/b", "\\", "k0", "K0",
@@ -32,7 +32,7 @@ static Case gen_case() {
     c.cfg = {pick(0, 3)};
     c.ops = op_list(70, [] {
         auto key = []() -> std::string { return chance(12) ? bytes(1, 6, 1, 255) : std::string(); };
-        switch (weighted({30, 8, 5, 12, 5, 20, 5, 12, 3, 2, 1, 2})) {
+        switch (weighted({30, 8, 5, 12, 5, 20, 5, 12, 3, 2, 1, 2, 4})) {
         case 0: return mkop(OADD, {chance(55) ? pick(0, 9) : pick(0, NPOOL + 1), pick(0, 6)}, key());
         case 1: return mkop(OGET, {pick(0, NPOOL + 1)}, key());
         case 2: return mkop(OHAS, {pick(0, NPOOL + 1)}, key());
@@ -44,7 +44,8 @@ static Case gen_case() {
         case 8: return mkop(AITER, {pick(0, 12), pick(0, 2)});
         case 9: return mkop(AOOR, {pick(0, 3), pick(0, 1)});
         case 10: return mkop(WRONGTYPE, {pick(0, 9)});
-        default: return mkop(ROUNDTRIP, {pick(0, 1)});
+        case 11: return mkop(ROUNDTRIP, {pick(0, 1)});
+        default: return mkop(DUPSWITCH, {pick(0, 2)});
         }
     });
     return c;
@@ -387,6 +388,38 @@ static void run(const Case &c, Ctx &ctx) {
                 aws_json_value_destroy(num);
                 ctx.tag("wrong_container_type");
                 verify_all("wrong-type call");
+                break;
+            }
+            case DUPSWITCH: {
+                // "a duplicate compares equal to its original" - and it has to be a fully working value: the program continues
+                // on the duplicate (the original is destroyed), so later adds / removes / lookups run against duplicated nodes
+                bool do_obj = op.arg(0) % 3 != 1, do_arr = op.arg(0) % 3 != 0;
+                if (do_obj) {
+                    struct aws_json_value *d = aws_json_value_duplicate(obj);
+                    PBT_CHECK(d != nullptr, "duplicate of the object failed");
+                    PBT_CHECK(aws_json_value_compare(obj, d, true), "the duplicate of the object does not compare equal to it");
+                    aws_json_value_destroy(obj);
+                    obj = d;
+                    Visit vo;
+                    PBT_CHECK(aws_json_const_iterate_object(obj, on_member, &vo) == AWS_OP_SUCCESS && vo.seen.size() == om.size(),
+                              "the duplicated object has %zu members, the original had %zu", vo.seen.size(), om.size());
+                    for (size_t i = 0; i < om.size(); i++) {
+                        PBT_CHECK(vo.seen[i].first == om[i].key, "member %zu of the duplicated object has another key", i);
+                        om[i].ptr = vo.seen[i].second;
+                    }
+                }
+                if (do_arr) {
+                    struct aws_json_value *d = aws_json_value_duplicate(arr);
+                    PBT_CHECK(d != nullptr, "duplicate of the array failed");
+                    PBT_CHECK(aws_json_value_compare(arr, d, true), "the duplicate of the array does not compare equal to it");
+                    aws_json_value_destroy(arr);
+                    arr = d;
+                    PBT_CHECK(aws_json_get_array_size(arr) == am.size(), "the duplicated array has %zu elements, the original had %zu",
+                              aws_json_get_array_size(arr), am.size());
+                    for (size_t i = 0; i < am.size(); i++) am[i].ptr = aws_json_get_array_element(arr, i);
+                }
+                ctx.tag("continued_on_duplicate");
+                verify_all("switching to the duplicate");
                 break;
             }
             default: { // ROUNDTRIP: the container as it is now survives serialise + parse
